@@ -860,9 +860,9 @@ func (h *lkHist) genInit(r *Rng) []string {
 	}
 	end := start.Add(length).Add(time.Duration(r.N(3)) * 333 * time.Millisecond)
 	ss, es := strconv.FormatInt(start.UnixNano(), 10), strconv.FormatInt(end.UnixNano(), 10)
-	switch r.N(14) {
-	case 0:
-		ss = "zero"
+	switch r.N(9) {
+	case 0, 3:
+		ss = "zero" // start time omitted: the account must default it to the block time
 	case 1:
 		es = "zero"
 	case 2:
